@@ -347,7 +347,16 @@ fn count_sub(hay: &[u8], needle: &[u8]) -> usize {
 pub fn run_scalars(args: &Args, rep: &mut Report) {
     const CHUNK: u32 = 0x1000;
     let chunks = (0x110000 / CHUNK) as u64;
-    const CONTEXTS: [&[u8]; 9] = [b"", b"a", b"\r", b"\n", b"\x1b[A", b"\x1b[1;5~", b"\x1b", "é".as_bytes(), b"\xE2\x82"];
+    // what came before must not matter: nothing, a character of every kind of lead octet (the leads E0, ED, F0, F4 restrict
+    // the second octet), such a character followed by something else, terminators, keys, ignored input, truncated sequences
+    const CONTEXTS: [&[u8]; 22] = [
+        b"", b"a", b"\r", b"\n", b"\x1b[A", b"\x1b[1;5~", b"\x1b", "é".as_bytes(), b"\xE2\x82",
+        "\u{800}".as_bytes(), "\u{D7FF}".as_bytes(), "\u{10000}".as_bytes(), "\u{10FFFF}".as_bytes(), "\u{FFFF}".as_bytes(),
+        "\u{10000}a".as_bytes(), "\u{D7FF}\r".as_bytes(), "\u{800}\x1b[C".as_bytes(), "\u{10FFFF}\x08".as_bytes(),
+        b"\xE0\xA0", b"\xED\x9F", b"\xF0\x90\x80", b"\xF4\x8F",
+    ];
+    // ... and the character itself must not matter to what follows: boundary characters of every length after it
+    const PROBES: [&str; 8] = ["a", "\u{80}", "\u{7FF}", "\u{800}", "\u{D7FF}", "\u{E000}", "\u{10000}", "\u{10FFFF}"];
     run_cases(args, "C04", chunks, rep, &mut |c, rep| {
         if !mine(args, c) {
             rep.cases -= 1;
@@ -385,6 +394,29 @@ pub fn run_scalars(args: &Args, rep: &mut Report) {
                     if !same {
                         let tag = format!("scalar-{}byte-{}", enc.len(), if matches!(r, Shadow::None) { "lost" } else { "wrong" });
                         report(rep, args, "C04", "decoder-lockstep", &tag, c, 1, J::s(format!("U+{:04X} after {}", u, show_bytes(ctx))), format!("U+{:04X} after context {}: at byte {} the decoder yields {:?}, the statement requires {:?}", u, show_bytes(ctx), bi, r, e));
+                        break;
+                    }
+                }
+            }
+            for probe in PROBES {
+                let mut real = InputGenerator::new();
+                let mut rf = RefDecoder::new();
+                for &b in &enc {
+                    let _ = rf.accept(b);
+                    let _ = shadow_accept(&mut real, b);
+                }
+                for (bi, &b) in probe.as_bytes().iter().enumerate() {
+                    let e = rf.accept(b);
+                    let r = shadow_accept(&mut real, b);
+                    rep.evaluations += 1;
+                    let same = match (&r, &e) {
+                        (Shadow::None, None) => true,
+                        (Shadow::Key(k), Some(k2)) => k == k2,
+                        _ => false,
+                    };
+                    if !same {
+                        let tag = format!("after-scalar-{}byte-{}", enc.len(), if matches!(r, Shadow::None) { "lost" } else { "wrong" });
+                        report(rep, args, "C04", "decoder-lockstep", &tag, c, 1, J::s(format!("{:?} after U+{:04X}", probe, u)), format!("{:?} typed after U+{:04X}: at byte {} the decoder yields {:?}, the statement requires {:?}", probe, u, bi, r, e));
                         break;
                     }
                 }
